@@ -15,8 +15,8 @@ Why(e) == IF Len(e.res) # Len(e.ts) THEN <<"row count", Len(e.res), Len(e.ts)>>
                IN <<e.op, e.sym, "ts", e.ts[i], "ss", e.ss, "snew", e.snew, "got", e.res[i], "spec", Add(Mod(e.sym), e.ts[i], e.ss, e.snew)>>
 
 Init == tid \in 1..Len(Traces) /\ l = 1
-Step == l \in 1..Len(Ev) /\ Ok(Ev[l]) /\ l' = l + 1 /\ UNCHANGED tid
-Fail == l \in 1..Len(Ev) /\ ~Ok(Ev[l]) /\ PrintT(<<"REJECT", tid, l, ToString(Why(Ev[l]))>>) /\ l' = 0 /\ UNCHANGED tid
+Step == l \in 1..Len(Ev) /\ (Ok(Ev[l]) = TRUE) /\ l' = l + 1 /\ UNCHANGED tid
+Fail == l \in 1..Len(Ev) /\ ~Ok(Ev[l]) /\ PrintT(<<"REJECT", tid, l, ToString(Why(Ev[l]))>>) /\ l' = l + 1 /\ UNCHANGED tid
 Done == l = Len(Ev) + 1 /\ PrintT(<<"ACCEPT", tid>>) /\ l' = -1 /\ UNCHANGED tid
 Next == Step \/ Fail \/ Done
 =============================================================================
